@@ -19,9 +19,18 @@ func (s *sim) label(v *view, info *txInfo, height uint32) (string, *big.Int) {
 		for _, in := range info.facts.ins {
 			if o, ok := v.utxo[in]; ok && o.owner >= 0 && s.actors[o.owner].weird != "" {
 				lbl = "unsigned-spend-from-script-address/" + s.actors[o.owner].weird
+				if cc := s.ccActor(); cc != nil && contract.GetPrefixType(o.ph) == contract.PrefixCrossChain && s.actors[mod(info.spec.From, len(s.actors))] == cc {
+					// the client of the cross-chain actor attaches its
+					// well-formed self-made script to whatever 'X' output it
+					// takes: one defect, one name
+					lbl = "unsigned-spend-from-script-address/" + ccShape
+				}
 				break
 			}
 		}
+	}
+	if info.facts.wd != nil && lbl == "" {
+		lbl = s.labelWithdraw(v, info, height)
 	}
 	// C31: in the freeze window nothing spends a cross-chain output; from the
 	// restriction height on only side-chain withdrawals / legacy deposit
@@ -45,7 +54,7 @@ func (s *sim) label(v *view, info *txInfo, height uint32) (string, *big.Int) {
 			if policyFirst && band == "freeze-window" {
 				return "crosschain-utxo-frozen", fee
 			}
-			if policyFirst && band == "restricted" {
+			if policyFirst && band == "restricted" && info.facts.wd == nil {
 				return "crosschain-utxo-restricted", fee
 			}
 		}
